@@ -328,6 +328,27 @@ theorem protocol_all_corners (eqN : Pt α → Pt α → Bool) (first : Seg α) (
   · rw [hjn, List.countP_eq_length.mpr hall, protocol_pairs]
   · rw [hcp]; cases closed <;> rfl
 
+/-- A closed subpath of `n ≥ 1` segments all of whose junctions are corners gets exactly `n` joins and
+no cap — for Stroke and for Offset alike; `n = 1` (a single cubic returning to its start point) included. -/
+theorem closed_join_count (eqN : Pt α → Pt α → Bool) (first : Seg α) (rest : List (Seg α))
+    (strokeOpen : Bool)
+    (hall : ∀ p ∈ adjPairs first true (first :: rest), isCorner eqN p = true) :
+    ∃ pr, offsetProto eqN (first :: rest) true strokeOpen = some pr ∧
+      (pr.events.filter Ev.isJoin).length = (first :: rest).length ∧
+      (pr.events.filter Ev.isCap).length = 0 := by
+  obtain ⟨pr, hpr, hjn, hcp, _, _⟩ := protocol eqN first rest true strokeOpen
+  refine ⟨pr, hpr, ?_, ?_⟩
+  · rw [hjn, List.countP_eq_length.mpr hall, protocol_pairs]; simp
+  · rw [hcp]; rfl
+
+/-- The one-segment closed subpath: the segment is joined with itself (`next = states[0]`) at its
+single vertex, with end normal → start normal and end radius → start radius; this is the only request. -/
+theorem closed_single_segment_join (eqN : Pt α → Pt α → Bool) (s : Seg α) (strokeOpen : Bool)
+    (hcorner : eqN s.n1 s.n0 = false) :
+    offsetProto eqN [s] true strokeOpen =
+      some ⟨[.join s.p1 s.n1 s.n0 s.r1 s.r0], true, some true⟩ := by
+  simp [offsetProto, joinsFrom, joinOf, hcorner]
+
 /-- both sides come back closed iff the input subpath is closed -/
 theorem both_sides_closed_iff (eqN : Pt α → Pt α → Bool) (first : Seg α) (rest : List (Seg α))
     (closed strokeOpen : Bool) :
